@@ -1,5 +1,9 @@
-CLAIM = "Returned paths are clean: collapse_path on all strings up to the bound; name/path decoders on symbolic bytes."
-ASSUMPTIONS = ["C locale for islower/tolower (ASCII model)"]
+from hdr_common import *
+CLAIM = ("Returned paths are clean: collapse_path on all strings up to the bound (component invariant, never longer, clean input unchanged); the name/path "
+         "decoders (level-0/1 in-header name, file-name and path extended headers) on symbolic bytes; and the post-processing of lha_file_header_read "
+         "(symlink 'name|target' split, all-caps folding, collapse) from arbitrary decoded strings: the returned name has no '/', every '/'-terminated "
+         "path component is a real name.")
+ASSUMPTIONS = ["C locale for islower/tolower (ASCII model)", "tail harness: the decoded name has no '/' on entry (established by l01.* and ext.01, which assert it)"]
 U = ["lib/lha_file_header.c"]
 HARNESSES = [
     dict(name="collapse.n6", src="C11/collapse.c", defines=["N=6"], unwind=9, units=U + ["collapse_path"],
@@ -9,4 +13,5 @@ HARNESSES = [
          timeout=300, bounds="all NUL-terminated strings of <= 8 bytes"),
     dict(name="collapse.n11", src="C11/collapse.c", defines=["N=11"], unwind=14, units=U + ["collapse_path"],
          tier="thorough", timeout=1800, bounds="all NUL-terminated strings of <= 11 bytes"),
+    tail(3), l01(40), ext(0x01, 6), ext(0x02, 6), tail(4, timeout=1800, tier="thorough"),
 ]
